@@ -291,8 +291,7 @@ func (f *File) AddChild(child Box, boxStartPos uint64) {
 		// The case that a segment starts without an emsg or prft is also handled.
 		f.startSegmentIfNeeded(box, boxStartPos)
 		lastSeg := f.LastSegment()
-		if lastFrag := lastSeg.LastFragment(); lastFrag == nil || lastFrag.Mdat != nil {
-			// The previous fragment is complete, so this box belongs to a new one
+		if len(lastSeg.Fragments) == 0 {
 			lastSeg.AddFragment(&Fragment{StartPos: boxStartPos})
 		}
 		frag := lastSeg.LastFragment()
